@@ -295,6 +295,9 @@ func zeroToDefault(d *m.Design, a *m.Attr, v value.V) value.V {
 	if res == nil || res.Type == nil || v.IsNil() {
 		return v
 	}
+	if a.Default != nil && IsZero(v) {
+		return Canonicalize(d, a, *a.Default)
+	}
 	switch res.Type.Kind {
 	case m.Object:
 		if v.K != "object" {
@@ -490,4 +493,111 @@ func formatOK(format, s string) bool {
 	}
 	// values outside the generator's pools are not judged
 	return true
+}
+
+// Match decides whether got is an acceptable reception of sent for an
+// attribute, following the property statement: equal value; an unset attribute
+// arrives unset, or carrying the default when the design declares one. Two Go
+// facts are folded in: an empty collection and an unset one are the same
+// value, and an attribute with a default is a non-pointer field, so an
+// explicit zero value cannot be told from "unset" and may arrive as zero or as
+// the default. wire relaxes the unset case for bytes observed on the wire
+// (the sender may or may not write the default itself).
+func Match(d *m.Design, a *m.Attr, sent, got value.V, wire bool, path string) string {
+	unsetSent := sent.IsNil() || emptyColl(sent)
+	unsetGot := got.IsNil() || emptyColl(got)
+	if a == nil {
+		if sent.Canon() != got.Canon() {
+			return fmt.Sprintf("%s: want %s got %s", orRoot(path), sent.Canon(), got.Canon())
+		}
+		return ""
+	}
+	var def *value.V
+	if a.Default != nil {
+		c := Canonicalize(d, a, *a.Default)
+		def = &c
+	}
+	if unsetSent {
+		switch {
+		case def != nil && got.Canon() == def.Canon():
+			return ""
+		case def != nil && wire && unsetGot:
+			return ""
+		case def != nil && emptyColl(sent) && unsetGot:
+			return ""
+		case def != nil:
+			return fmt.Sprintf("%s: unset attribute with default %s arrived as %s", orRoot(path), def.Canon(), got.Canon())
+		case unsetGot:
+			return ""
+		}
+		return fmt.Sprintf("%s: want unset got %s", orRoot(path), got.Canon())
+	}
+	if def != nil && IsZero(sent) && got.Canon() == def.Canon() {
+		return ""
+	}
+	if unsetGot {
+		return fmt.Sprintf("%s: want %s got unset", orRoot(path), sent.Canon())
+	}
+	res, _ := d.Resolve(a)
+	if res == nil || res.Type == nil {
+		return ""
+	}
+	switch res.Type.Kind {
+	case m.Object:
+		if sent.K != "object" || got.K != "object" {
+			break
+		}
+		for _, f := range res.Type.Fields {
+			sv, _ := sent.Get(f.Name)
+			gv, _ := got.Get(f.Name)
+			if msg := Match(d, f.Attr, sv, gv, wire, path+"."+f.Name); msg != "" {
+				return msg
+			}
+		}
+		for _, f := range got.O {
+			if d.FieldByName(a, f.N) == nil {
+				return fmt.Sprintf("%s: unexpected attribute %q = %s", orRoot(path), f.N, f.V.Canon())
+			}
+		}
+		return ""
+	case m.Array:
+		if sent.K != "array" || got.K != "array" {
+			break
+		}
+		if len(sent.A) != len(got.A) {
+			return fmt.Sprintf("%s: want %d elements %s got %d %s", orRoot(path), len(sent.A), sent.Canon(), len(got.A), got.Canon())
+		}
+		for i := range sent.A {
+			if msg := Match(d, res.Type.Elem, sent.A[i], got.A[i], wire, fmt.Sprintf("%s[%d]", path, i)); msg != "" {
+				return msg
+			}
+		}
+		return ""
+	case m.Map:
+		if sent.K != "map" || got.K != "map" {
+			break
+		}
+		gm := map[string]value.V{}
+		for i := 0; i+1 < len(got.A); i += 2 {
+			gm[got.A[i].Canon()] = got.A[i+1]
+		}
+		if len(gm) != len(sent.A)/2 {
+			return fmt.Sprintf("%s: want %s got %s", orRoot(path), sent.Canon(), got.Canon())
+		}
+		for i := 0; i+1 < len(sent.A); i += 2 {
+			k := Canonicalize(d, res.Type.Key, sent.A[i]).Canon()
+			gv, ok := gm[k]
+			if !ok {
+				return fmt.Sprintf("%s: key %s missing, got %s", orRoot(path), k, got.Canon())
+			}
+			if msg := Match(d, res.Type.Val, sent.A[i+1], gv, wire, path+"["+k+"]"); msg != "" {
+				return msg
+			}
+		}
+		return ""
+	}
+	if sent.Canon() != got.Canon() {
+		return fmt.Sprintf("%s: want %s got %s", orRoot(path), sent.Canon(), got.Canon())
+	}
+	return ""
 }
